@@ -385,7 +385,15 @@ impl<'a> OpenResponsesSsePipe<'a> {
     }
 
     async fn push_sse_str(&mut self, chunk: &str) -> bool {
-        let parsed = self.decoder.push(chunk);
+        let mut parsed = self.decoder.push(chunk);
+        // The terminal marker ends the stream: whatever follows it in the same chunk is ignored,
+        // exactly as it would be had it arrived in a later chunk.
+        if let Some(done_idx) = parsed
+            .iter()
+            .position(|event| event.kind == ParsedEventKind::Done)
+        {
+            parsed.truncate(done_idx + 1);
+        }
         if parsed.is_empty() {
             return false;
         }
